@@ -101,7 +101,7 @@ Contract('wpull/url.py', 'is_subdir', {'base_path': TStr(), 'test_path': TStr(),
          ensures=[('ref-dir', 'implies(trailing_slash and not wildcards, result == startswith(%s, %s))' % (DIROF('test_path'), DIROF('base_path'))),
                   ('ref-plain', 'implies(not trailing_slash and not wildcards, result == startswith(%s, %s))' % (SLASHED('test_path'), SLASHED('base_path'))),
                   ('ref-wild', 'implies(not trailing_slash and wildcards, result == fn_match(%s, %s))' % (SLASHED('test_path'), SLASHED('base_path')))],
-         raises={})
+         raises={}, observe=['base_path', 'test_path', 'trailing_slash', 'wildcards'], replay='filters:replay_is_subdir')
 TOP = '(url_parse(url_table_record.root_url) if truthy(url_table_record.root_url) else url_info)'
 filt('ParentFilter', [('ref', 'truthy(result) == (truthy(url_table_record.inline_level) or not ('
                               '(url_info.scheme == {top}.scheme or (url_info.scheme in ("http", "https") and {top}.scheme in ("http", "https")))'
@@ -133,7 +133,7 @@ filt('BackwardFilenameFilter', [('ref', 'truthy(result) == (not truthy({f}) or (
 
 # ---- demultiplexer --------------------------------------------------------------------------------------------
 _passes = z3.Function('passes', z3.IntSort(), z3.IntSort(), z3.IntSort(), z3.BoolSort())
-_cls = z3.Function('cls_name', z3.IntSort(), z3.StringSort())
+_cls = CLS_NAME
 SPECFUNS['passes'] = lambda ex, st, f, u, r: VBool(_passes(f.term, u.term, r.term))
 SPECFUNS['cls_name'] = lambda ex, st, f: VStr(_cls(f.term))
 # dynamic dispatch: every concrete filter's `test` is verified above (raises nothing, modifies nothing); `passes` names its verdict
@@ -166,3 +166,25 @@ Contract(F_, 'DemuxURLFilter.test_info', P('DemuxURLFilter'), ret=INFO, prop='C0
     ], raises={})
 Contract(F_, 'DemuxURLFilter.test', P('DemuxURLFilter'), ret=TBool(), prop='C02', requires=[UNIQ(F)],
          ensures=[('conjunction', 'result == forall(0, len(%s), lambda j: passes(%s[j], url_info, url_table_record))' % (F, F))], raises={})
+
+# ---- constructors (verified: each stores its arguments in the fields the test() contracts read) ---------------------
+def init(cls, params, fields, defaults=None):
+    ps = {'self': TObj(cls)}; ps.update(params)
+    return Contract(F_, cls + '.__init__', ps, prop='C02', defaults=defaults or {}, modifies=['self.' + f for f in fields],
+                    ensures=[('fields', ' and '.join('self.%s == %s' % (f, a) for f, a in fields.items()))], raises={})
+
+
+OL = TOpt(TList(TStr()))
+init('SchemeFilter', {'allowed': TList(TStr())}, {'_allowed': 'allowed'}, {'allowed': lib.list_of([const('http'), const('https'), const('ftp')], None)})
+init('FollowFTPFilter', {'follow': TBool()}, {'_follow': 'follow'}, {'follow': False})
+init('BackwardDomainFilter', {'accepted': OL, 'rejected': OL}, {'_accepted': 'accepted', '_rejected': 'rejected'}, {'accepted': None, 'rejected': None})
+init('HostnameFilter', {'accepted': OL, 'rejected': OL}, {'_accepted': 'accepted', '_rejected': 'rejected'}, {'accepted': None, 'rejected': None})
+init('RecursiveFilter', {'enabled': TBool(), 'page_requisites': TBool()}, {'_enabled': 'enabled', '_page_requisites': 'page_requisites'}, {'enabled': False, 'page_requisites': False})
+init('LevelFilter', {'max_depth': TInt(), 'inline_max_depth': TOpt(TInt())}, {'_depth': 'max_depth', '_inline_max_depth': 'inline_max_depth'}, {'inline_max_depth': 5})
+init('TriesFilter', {'max_tries': TOpt(TInt())}, {'_tries': 'max_tries'})
+init('SpanHostsFilter', {'hostnames': TList(TStr()), 'enabled': TBool(), 'page_requisites': TBool(), 'linked_pages': TBool()},
+     {'_hostnames': 'hostnames', '_enabled': 'enabled', '_page_requisites': 'page_requisites', '_linked_pages': 'linked_pages'},
+     {'enabled': False, 'page_requisites': False, 'linked_pages': False})
+init('RegexFilter', {'accepted': TOpt(TStr()), 'rejected': TOpt(TStr())}, {'_accepted': 'accepted', '_rejected': 'rejected'}, {'accepted': None, 'rejected': None})
+init('DirectoryFilter', {'accepted': OL, 'rejected': OL}, {'_accepted': 'accepted', '_rejected': 'rejected'}, {'accepted': None, 'rejected': None})
+init('BackwardFilenameFilter', {'accepted': OL, 'rejected': OL}, {'_accepted': 'accepted', '_rejected': 'rejected'}, {'accepted': None, 'rejected': None})
